@@ -39,6 +39,31 @@ signature file *.gs; the original is only read once, to make the copy, and re-ha
            behaviourally on a throw-away copy), mode of every h5py.File opened on the copy.  Model op
            1803 (the command compiled to micro operations, cut at the failure point).
 
+  dbstate  (kind `history`, case key `state`; streams history-dbstate / history-dbstate-random) the SAME invocations,
+           run against a PRIVATE data base directory whose files were left in another PERSISTENT STATE by whoever
+           built or last edited them -- a state a real user can have, stored in the files, not in gambit:
+             genome file   journal mode WAL (clean; edited in WAL mode; with LEFTOVER -wal/-shm side files whose frames are
+                           all checkpointed, -wal without -shm, zero-length -wal) | DELETE | TRUNCATE / PERSIST (leftover
+                           -journal file) | MEMORY | OFF (after an edit made in that mode);  page size 512 .. 65536;
+                           auto_vacuum NONE / FULL / INCREMENTAL;  free pages on the freelist;  freshly VACUUMed;
+                           user_version / application_id set;  text encoding UTF-8 / UTF-16le / UTF-16be (rebuilt from
+                           a dump);  file (and directory) made read-only on disk (chmod 0444 / 0555)
+             signature file  as shipped | rewritten with the latest HDF5 file format (superblock v3) | read-only on disk
+           x read-side uses: `gambit -d DB query` (genome files / -s SIGFILE / csv, json, archive), `dist --use-db`,
+           `signatures info -d`, `signatures create --db-params`, load_from_dir + iteration + library query + in-place
+           post-processing, ORM edits on a session obtained by file_sessionmaker / explicit ReadOnlySession / CLIContext,
+           signature handle operations, each possibly failing (bad argument, unreadable file, unwritable output,
+           exception at the n-th SQL statement).
+           JUDGED after every invocation (what the property states): SHA-256 and size of the genome file and of the
+           signature file are those of the state before the first invocation; no write statement reached a cursor;
+           commit() raised TypeError; every session is read-only in behaviour; every handle is in mode 'r'; writes
+           through the handle were rejected.  NOT judged, only counted (the property does not constrain them and SQLite
+           itself does this for a reader of a WAL data base): side files (-wal / -shm / -journal) appearing while a
+           connection is open or leftover side files being removed when the reader closes, mtime of the files and of
+           the directory (a reader that finds a leftover -wal copies its -- already checkpointed -- frames into the
+           file again: same bytes, new mtime), whether a command on a read-only directory fails.
+           Model op 1803 as for `history` (the state is below the model: its genome file is an abstract value).
+
 Property predicate (reported as VIOLATION with the history as replay): after every step both files
 have the same SHA-256, size and mtime, the directory has the same entries and mtime, no journal
 appeared, no INSERT/UPDATE/DELETE/CREATE/... reached a cursor, every commit() raised TypeError,
@@ -51,6 +76,7 @@ import hashlib
 import itertools
 import os
 import shutil
+import time
 
 PROP = 'C18'
 RULE = ('session: (how the session was obtained, autoflush, operation list) -> per-operation observables; non-trivial: '
@@ -60,7 +86,12 @@ RULE = ('session: (how the session was obtained, autoflush, operation list) -> p
         'opened signature object was modified in place and the modification took effect on the caller\'s array. '
         'history: list of invocations with failure points; non-trivial: >= 2 invocations of which >= 1 reads the '
         'database to completion and >= 1 fails or edits (an edit is an ORM edit, a handle operation, or an effective '
-        'in-place modification of an array obtained from ReferenceDatabase.signatures: stream history-inplace)')
+        'in-place modification of an array obtained from ReferenceDatabase.signatures: stream history-inplace). '
+        'history with a `state` (streams history-dbstate / history-dbstate-random): (persistent state of the genome / '
+        'signature file: journal mode incl. WAL with or without leftover side files, page size, auto_vacuum, freelist, '
+        'VACUUM, user_version, application_id, text encoding, read-only on disk, HDF5 format version; list of invocations '
+        'with failure points) -> SHA-256 and size of both files after every invocation; non-trivial: the state differs from '
+        'the shipped one in >= 1 dimension and >= 1 invocation reads the data base to completion')
 TRUSTED = ['SQLite / pysqlite: a connection that executes only SELECT/PRAGMA does not write to the file (explored: '
            'SHA-256, size, mtime, journal after every step; not proved)',
            'libhdf5 / h5py: a file opened in mode r is not written (explored likewise); h5py.File default mode is r '
@@ -77,13 +108,25 @@ TRUSTED = ['SQLite / pysqlite: a connection that executes only SELECT/PRAGMA doe
            'arrays outlive the handle. That a write through a shared file mapping is seen at once by the hashing is '
            'asserted on every run on a private copy (extra.mmap_write_detected); an array the implementation hands out '
            'read-only (the operation raises) is not judged',
+           'dbstate stream: "SQLite does not write for a connection that only reads" is EXPLORED, not assumed, over the '
+           'persistent states of the genome file listed in the module docstring (journal mode WAL / DELETE / TRUNCATE / '
+           'PERSIST / MEMORY / OFF, leftover side files, page sizes 512..65536, auto_vacuum, freelist, VACUUM, user_version, '
+           'application_id, UTF-16 encodings, read-only on disk) and two of the signature file; the states are produced by '
+           'the harness with the sqlite3 / h5py modules on private copies (trusted to produce what they are asked for: the '
+           'SQLite header fields of every state are recorded in the replay values); judged there: bytes (SHA-256, size) of '
+           'the two files, write statements, commit, session class, handle mode -- not mtime, not side files',
            'the mapping invocation -> micro operations (Model/C18.v compile) is a summary of the CLI code paths; only '
            'its observable consequences (sessions opened, handle modes, nothing written) are compared']
 ASSUMPTIONS = ['no other process writes to the data base directory while a command runs',
                'raw DML through session.execute()/connection and committing the SessionTransaction object directly '
                'are NOT read-side use: C18_raw_dml_boundary_refuted shows (and the harness confirms on a private copy) '
                'that ReadOnlySession does not stop them',
-               'the file system reports modification through mtime_ns / content; atime is ignored']
+               'the file system reports modification through mtime_ns / content; atime is ignored',
+               'the genome file has no PENDING (not yet checkpointed) frames in a leftover -wal file, i.e. it was not left '
+               'behind by a crashed or still running writer: SQLite itself transfers such frames into the file when ANY '
+               'connection to it closes, a reading one included, because gambit opens the file read-write (observed on every '
+               'run, not judged: extra.wal_pending_frames_after_read_side_query); the dbstate stream therefore only generates '
+               'leftover side files whose frames are all checkpointed']
 BATCH = 60
 SHRINK = True
 
@@ -311,6 +354,9 @@ def setup(ctx):
 	for a in ASSUMPTIONS:
 		ctx.assume(a)
 	_selfcheck_mmap(ctx)
+	if not ctx.replaying:
+		_observe_wal_pending(ctx)
+		ctx.extra['readonly_on_disk_effective'] = (os.geteuid() != 0)   # chmod does not stop root: the state is then only a mode bit
 
 
 def finish(ctx):
@@ -984,6 +1030,240 @@ def k_store(ctx, cases):
 
 
 # ------------------------------------------------------------------------------------------------
+# persistent states of the data base files (stream history-dbstate)
+# ------------------------------------------------------------------------------------------------
+
+# jm       journal mode the genome file was last used in: delete | wal | truncate | persist | memory | off
+# edit     what was done to it in that mode: none | desc (a description updated) | free (a scratch table created and
+#          dropped: free pages stay on the freelist unless auto_vacuum = FULL)
+# sidecar  (jm = wal) leftover side files: none | ckpt (-wal and -shm, every frame checkpointed) | ckpt-noshm (-wal only)
+#          | empty (zero-length -wal, -shm)
+# page     page size (0 = as shipped, 4096);  av  auto_vacuum 0 none / 1 full / 2 incremental;  vacuum  1 = VACUUMed
+# uv / appid  PRAGMA user_version / application_id;  enc  utf8 | utf16le | utf16be (rebuilt from a dump)
+# ro       none | file (both files chmod 0444) | dir (files 0444 and directory 0555)
+# sig      signature file: orig | latest (rewritten with libver='latest')
+STATE_DEFAULT = dict(jm='delete', edit='none', sidecar='none', page=0, av=0, vacuum=0, uv=0, appid=0, enc='utf8', ro='none', sig='orig')
+JOURNAL_MODES = ('delete', 'wal', 'truncate', 'persist', 'memory', 'off')
+PAGE_SIZES = (512, 1024, 2048, 4096, 8192, 16384, 32768, 65536)
+ENCODINGS = {'utf8': 'UTF-8', 'utf16le': 'UTF-16le', 'utf16be': 'UTF-16be'}
+DB_FILES = ('ref-genomes.gdb', 'ref-signatures.gs')
+
+
+def _norm_state(st):
+	out = dict(STATE_DEFAULT)
+	out.update(st or {})
+	return out
+
+
+def _sqlite_header(path):
+	"""the fields of the 100-byte SQLite header that a state sets / a modification shows in"""
+	import struct
+	try:
+		with open(path, 'rb') as f:
+			h = f.read(100)
+		u32 = lambda o: struct.unpack('>I', h[o:o + 4])[0]
+		ps = struct.unpack('>H', h[16:18])[0]
+		return dict(page_size=65536 if ps == 1 else ps, format_write_read=h[18:20].hex(), change_counter=u32(24), pages=u32(28),
+		            freelist_pages=u32(36), auto_vacuum_root=u32(52), encoding=u32(56), user_version=u32(60),
+		            incremental_vacuum=u32(64), application_id=u32(68))
+	except Exception as e:
+		return dict(error=repr(e)[:80])
+
+
+def _build_state(st, d):
+	"""d holds fresh copies of the shipped genome and signature file; leave them the way a user's tools could have:
+	every connection of the builder is closed when this returns"""
+	import sqlite3
+	g = os.path.join(d, 'ref-genomes.gdb')
+	gs = os.path.join(d, 'ref-signatures.gs')
+	page, av = int(st['page']), int(st['av'])
+	if st['enc'] != 'utf8':
+		src = sqlite3.connect(g)
+		script = '\n'.join(src.iterdump())
+		src.close()
+		os.remove(g)
+		con = sqlite3.connect(g, isolation_level=None)
+		con.execute('PRAGMA encoding = "%s"' % ENCODINGS[st['enc']])
+		con.executescript(script)
+		con.close()
+	con = sqlite3.connect(g, isolation_level=None)
+	try:
+		if page or av or st['vacuum']:
+			if page:
+				con.execute('PRAGMA page_size = %d' % page)
+			con.execute('PRAGMA auto_vacuum = %d' % av)
+			con.execute('VACUUM')
+		if st['uv']:
+			con.execute('PRAGMA user_version = %d' % int(st['uv']))
+		if st['appid']:
+			con.execute('PRAGMA application_id = %d' % int(st['appid']))
+		jm = st['jm']
+		got = con.execute('PRAGMA journal_mode = %s' % jm).fetchone()[0]
+		if got.lower() != jm:
+			raise RuntimeError(f'journal_mode {jm} not obtained: {got}')
+		edit = st['edit']
+		if st['sidecar'] != 'none' and edit == 'none':
+			edit = 'desc'       # leftover frames need an edit made in WAL mode
+		if edit == 'desc':
+			con.execute('BEGIN')
+			con.execute("UPDATE genomes SET description = 'edited with another tool' WHERE id = 1")
+			con.execute('COMMIT')
+		elif edit == 'free':
+			con.execute('CREATE TABLE c18_scratch (x)')
+			con.execute('BEGIN')
+			for _ in range(6):
+				con.execute('INSERT INTO c18_scratch VALUES (zeroblob(9000))')
+			con.execute('COMMIT')
+			con.execute('DROP TABLE c18_scratch')
+		keep = []
+		if jm == 'wal' and st['sidecar'] != 'none':
+			# what is left when the files are copied (backup, rsync) while the editing tool still has them open
+			con.execute('PRAGMA wal_checkpoint(%s)' % ('TRUNCATE' if st['sidecar'] == 'empty' else 'FULL')).fetchall()
+			for suffix in (('-wal',) if st['sidecar'] == 'ckpt-noshm' else ('-wal', '-shm')):
+				if os.path.exists(g + suffix):
+					shutil.copy(g + suffix, g + suffix + '.keep')
+					keep.append(suffix)
+	finally:
+		con.close()
+	for suffix in keep:
+		os.replace(g + suffix + '.keep', g + suffix)
+	if st['sig'] == 'latest':
+		import h5py
+		tmp = gs + '.tmp'
+		with h5py.File(gs, 'r') as a, h5py.File(tmp, 'w', libver='latest') as b:
+			for k in a.attrs:
+				b.attrs.create(k, a.attrs[k])
+			for name in a:
+				a.copy(name, b)
+		os.replace(tmp, gs)
+	if st['ro'] in ('file', 'dir'):
+		for n in os.listdir(d):
+			os.chmod(os.path.join(d, n), 0o444)
+		if st['ro'] == 'dir':
+			os.chmod(d, 0o555)
+
+
+def _writable_again(d):
+	try:
+		os.chmod(d, 0o755)
+		for n in os.listdir(d):
+			os.chmod(os.path.join(d, n), 0o644)
+	except OSError:
+		pass
+
+
+class _InState:
+	"""the shared names db / gdb / gs / base of the environment point to a private directory in the given state"""
+
+	def __init__(self, st):
+		self.st = _norm_state(st)
+
+	def __enter__(self):
+		env = _env()
+		env['npriv'] += 1
+		d = self.d = os.path.join(env['root'], f'state{env["npriv"]}')
+		os.makedirs(d)
+		for n in DB_FILES:
+			shutil.copy(os.path.join(env['pristine'], n), os.path.join(d, n))
+		self.saved = {k: env[k] for k in ('db', 'gdb', 'gs', 'base')}
+		try:
+			_build_state(self.st, d)
+		except Exception:
+			_writable_again(d)
+			shutil.rmtree(d, ignore_errors=True)
+			raise
+		env['db'], env['gdb'], env['gs'] = d, os.path.join(d, DB_FILES[0]), os.path.join(d, DB_FILES[1])
+		env['base'] = _snap(d)
+		self.header = _sqlite_header(env['gdb'])
+		return self
+
+	def __exit__(self, *exc):
+		env = _env()          # (every invocation ends with a gc.collect(): no connection of the case is still open)
+		env.update(self.saved)
+		_writable_again(self.d)
+		shutil.rmtree(self.d, ignore_errors=True)
+		return False
+
+
+def _bytes_changed(base, now):
+	"""what the property constrains in every state: content and size of the genome file and of the signature file"""
+	out = []
+	for n in DB_FILES:
+		b, c = base['files'][n], now['files'].get(n)
+		if c is None:
+			out.append(f'{n}: file is gone')
+		elif b[0] != c[0] or b[1] != c[1]:
+			out.append(f'{n}: SHA-256 {b[0][:12]} -> {c[0][:12]}, size {b[1]} -> {c[1]}')
+	return out
+
+
+def _state_text(st):
+	d = {k: v for k, v in _norm_state(st).items() if v != STATE_DEFAULT[k]}
+	return ', '.join(f'{k}={v}' for k, v in sorted(d.items())) or 'as shipped'
+
+
+def _session_obs_problems(case, obs):
+	"""the property predicate on the per-operation observables of _run_session (used where the directory-level
+	comparison of the shared copy does not apply)"""
+	for i, (o, ob) in enumerate(zip(case['ops'], obs)):
+		if ob[4]:
+			return 'operation %d (%s): a write statement reached the cursor' % (i, _opname(o))
+		if ob[5]:
+			return 'after operation %d (%s) the bytes of the genome file changed' % (i, _opname(o))
+		if o[0] == 5 and ob[0] != [2]:
+			return 'operation %d: commit() did not raise TypeError (got %s)' % (i, ob[0])
+	return None
+
+
+def _store_obs_problems(case, obs):
+	for i, (o, ob) in enumerate(zip(case['ops'], obs)):
+		if ob[1]:
+			return 'after operation %d %s the bytes of the signature file changed' % (i, o)
+		if o[0] in (2, 3) and ob[0] == [0]:
+			return 'operation %d %s: a write through the signature handle was accepted' % (i, o)
+		if ob[2] not in (-1, 0):
+			return 'operation %d %s: the signature file is open in a mode other than r' % (i, o)
+	return None
+
+
+def _observe_wal_pending(ctx):
+	"""NOT judged (see ASSUMPTIONS): a genome file with pending frames in a leftover -wal file, read by `gambit query`"""
+	import sqlite3
+	from click.testing import CliRunner
+	from gambit.cli import cli
+	env = _env()
+	d = _private()
+	try:
+		g = os.path.join(d, DB_FILES[0])
+		con = sqlite3.connect(g, isolation_level=None)
+		try:
+			con.execute('PRAGMA journal_mode = wal')
+			con.execute("UPDATE genomes SET description = 'pending' WHERE id = 1")
+			for suffix in ('-wal', '-shm'):
+				shutil.copy(g + suffix, g + suffix + '.keep')
+			shutil.copy(g, g + '.keep')
+		finally:
+			con.close()
+		os.replace(g + '.keep', g)
+		for suffix in ('-wal', '-shm'):
+			os.replace(g + suffix + '.keep', g + suffix)
+		before = _sha(g)
+		res = CliRunner().invoke(cli, ['-d', d, 'query', '-o', os.path.join(env['out'], 'pending'), '--no-progress', '-s', env['querysigs']])
+		gc.collect()
+		ctx.extra['wal_pending_frames_after_read_side_query'] = (
+			('genome file bytes CHANGED' if _sha(g) != before else 'genome file bytes unchanged') +
+			f' (exit code {res.exit_code}; side files now: {sorted(n for n in os.listdir(d) if n.endswith(("-wal", "-shm")))})')
+	except Exception as e:
+		ctx.extra['wal_pending_frames_after_read_side_query'] = 'not observed: ' + repr(e)[:120]
+	finally:
+		rec = env['rec']
+		rp = os.path.realpath(d)
+		for k in ('stmts', 'classes', 'modes', 'journal'):
+			rec[k] = [x for x in rec[k] if not x[0].startswith(rp)]
+		shutil.rmtree(d, ignore_errors=True)
+
+
+# ------------------------------------------------------------------------------------------------
 # histories of invocations
 # ------------------------------------------------------------------------------------------------
 
@@ -1018,7 +1298,7 @@ def _model_inv(inv):
 	if code in (0, 1, 5):
 		c = [code, inv.get('n', 1)]
 	elif code == 6:
-		c = [6, inv.get('af', 1), inv['ops']]
+		c = [6, 1 if inv.get('how') == 'cli' else inv.get('af', 1), [o for o in inv['ops'] if o[0] < 10]]
 	elif code == 7:
 		c = [7, _model_sops(inv['ops'])]
 	else:
@@ -1026,8 +1306,10 @@ def _model_inv(inv):
 	return [c, _fp(inv)]
 
 
-def _run_invocation(inv, idx):
-	"""-> dict(status=..., detail=...) ; everything else is read from the recorders"""
+def _run_invocation(inv, idx, strict=True):
+	"""-> dict(status=..., detail=...) ; everything else is read from the recorders.  strict=False (data base in a
+	generated persistent state): library sessions / handles are judged on their per-operation observables (bytes, write
+	statements, commit, handle mode), not on directory listing and mtime"""
 	from click.testing import CliRunner
 	from gambit.cli import cli
 	env = _env()
@@ -1111,14 +1393,25 @@ def _run_invocation(inv, idx):
 				del held[:]
 				del rdb
 		elif cmd == 'libsession':
-			case = dict(how='default', af=inv.get('af', 1), ops=inv['ops'])
-			obs, problems = _run_session(case, gdb, True)
+			how = inv.get('how', 'default')
+			if how not in PROPERTY_HOW:
+				raise ValueError(how)
+			case = dict(how=how, af=1 if how == 'cli' else inv.get('af', 1), ops=inv['ops'])
+			obs, problems = _run_session(case, gdb, strict)
+			if not strict:
+				pr = _session_obs_problems(case, obs)
+				problems = [(0, pr)] if pr else []
 			if problems:
 				status = 'problem'
 				detail = problems[0][1]
 		elif cmd == 'libstore':
 			case = dict(ops=[[0, -1]] + inv['ops'])
-			obs, problems, eff = _run_store(case, gs, True)
+			if not strict and not _store_shared(case):
+				raise ValueError('only read-mode opens belong to the property')
+			obs, problems, eff = _run_store(case, gs, strict)
+			if not strict:
+				pr = _store_obs_problems(case, obs)
+				problems = [pr] if pr else []
 			if problems:
 				status = 'problem'
 				detail = problems[0]
@@ -1141,87 +1434,133 @@ def k_history(ctx, cases):
 	models = ctx.model(reqs) if ctx.model_ok else [None] * len(cases)
 	mflags_ok = _model_flags(ctx, 'default') if ctx.model_ok else [1, 1]
 	for c, m in zip(cases, models):
-		rec = env['rec']
-		completed = failed = edits = 0
-		bad = None
-		steps = []
-		for idx, inv in enumerate(c['invs']):
-			n_st, n_cl, n_md, n_j = len(rec['stmts']), len(rec['classes']), len(rec['modes']), len(rec['journal'])
-			r = _run_invocation(inv, idx)
-			now = _snap(env['db'])
+		if c.get('state') is not None:
+			_history_in_state(ctx, c, m, mflags_ok)
+		else:
+			_history_case(ctx, c, m, mflags_ok, None)
+
+
+def _history_in_state(ctx, c, m, mflags_ok):
+	"""the history runs against a private data base directory whose files are in the persistent state c['state']"""
+	t0 = time.time()
+	try:
+		holder = _InState(c['state'])
+		holder.__enter__()
+	except Exception as e:
+		# a state the local SQLite / h5py cannot produce is not an input
+		ctx.count('history:dbstate-not-buildable')
+		ctx.case(c, nontrivial=False)
+		ctx.extra.setdefault('dbstate_not_buildable', []).append(f'{_state_text(c["state"])}: {e!r}'[:200])
+		return
+	try:
+		_history_case(ctx, c, m, mflags_ok, holder)
+	finally:
+		holder.__exit__(None, None, None)
+		ctx.extra['dbstate_wall_s'] = round(ctx.extra.get('dbstate_wall_s', 0) + time.time() - t0, 2)
+
+
+def _history_case(ctx, c, m, mflags_ok, holder):
+	env = _env()
+	strict = holder is None
+	rec = env['rec']
+	completed = failed = edits = 0
+	bad = None
+	steps = []
+	unjudged = False
+	for idx, inv in enumerate(c['invs']):
+		n_st, n_cl, n_md, n_j = len(rec['stmts']), len(rec['classes']), len(rec['modes']), len(rec['journal'])
+		r = _run_invocation(inv, idx, strict)
+		now = _snap(env['db'])
+		if strict:
 			df = _diff(env['base'], now)
-			rp_gdb, rp_gs = os.path.realpath(env['gdb']), os.path.realpath(env['gs'])
-			stm = sorted({x[1] for x in rec['stmts'][n_st:] if x[0] == rp_gdb})
-			classes = [x[1] for x in rec['classes'][n_cl:] if x[0] == rp_gdb]
-			modes = [x for x in rec['modes'][n_md:] if x[0] == rp_gs]
-			journal = [x for x in rec['journal'][n_j:] if x[0] == rp_gdb]
-			flags = [list(_class_flags(k)) for k in classes]
-			env.setdefault('seen_modes', []).extend(modes)
-			env.setdefault('seen_classes', set()).update(k.__name__ for k in classes)
-			steps.append(dict(status=r['status'], sessions=len(classes), opens=len(modes)))
-			name = f'invocation {idx} ({inv["cmd"]}{", fail=" + str(inv["fail"]) if inv.get("fail") else ""})'
-			if r['status'] == 'problem':
-				bad = f'{name}: {r["detail"]}'
-			elif df:
-				bad = f'{name} changed the data base directory: ' + _with_damage(df, env['gs'])
-				if inv.get('mut') or inv.get('qslice'):
-					steps_txt = [f'{SEL_NAMES[int(x[0]) % NSEL]} then {MUT_NAMES[int(x[1]) % NMUT]}' for x in inv.get('mut', []) if len(x) > 1]
-					bad += f' [in-place post-processing of arrays obtained from db.signatures: {steps_txt}' + \
-					       (f'; query signatures db.signatures[a:b], .values then {MUT_NAMES[int(inv["qslice"][2]) % NMUT]}'
-					        if inv.get('qslice') and len(inv['qslice']) > 2 else '') + ']'
-			elif stm:
-				bad = f'{name}: write statement(s) {stm} reached the cursor of the genome file'
-			elif journal:
-				bad = f'{name}: journal file(s) {journal[0][1]} appeared next to the genome file'
-			elif any(fl != [1, 1] for fl in flags):
-				k = next(k for k, fl in zip(classes, flags) if fl != [1, 1])
-				fl = _class_flags(k)
-				bad = (f'{name}: the session is a {k.__name__} whose flush is {"a no-op" if fl[0] else "REAL"} and whose commit '
-				       f'{"raises" if fl[1] else "is ALLOWED"} (not a read-only session)')
-			elif any(x[1] != 'r' for x in modes):
-				x = next(x for x in modes if x[1] != 'r')
-				bad = (f'{name}: signature file opened in mode {x[1]!r}; SHA-256 while open {str(x[2])[:12]} vs '
-				       f'{env["base"]["files"]["ref-signatures.gs"][0][:12]} before')
-			if bad:
-				break
-			if r['status'] == 'ok' and inv['cmd'] not in ('libsession', 'libstore'):
-				completed += 1
-			if r['status'] == 'failed':
-				failed += 1
-			if inv['cmd'] in ('libsession', 'libstore'):
-				edits += 1
-			elif r.get('eff'):
-				edits += 1      # arrays obtained from db.signatures were effectively modified in place
-			if r.get('eff'):
-				ctx.count('history:effective-in-place-modifications', r['eff'])
-			# a failing invocation was announced but the command succeeded (or vice versa): the generator's
-			# idea of what fails is not part of the property -- only counted
-			if bool(inv.get('fail')) != (r['status'] == 'failed'):
-				ctx.count('history:fail-expectation-differs')
-		ctx.count('history:invocations', len(steps))
-		ctx.case(c, nontrivial=(len(c['invs']) >= 2 and completed >= 1 and (failed + edits) >= 1))
+		else:
+			# generated persistent state: the property constrains the BYTES of the two files; listing / mtime only counted
+			df = _bytes_changed(env['base'], now)
+			if not df and not unjudged and _diff(env['base'], now):
+				unjudged = True
+				ctx.count('history:dbstate-side-file-or-mtime-change-not-judged')
+			if df:
+				df.append(f'SQLite header of the genome file {holder.header} -> {_sqlite_header(env["gdb"])}')
+		rp_gdb, rp_gs = os.path.realpath(env['gdb']), os.path.realpath(env['gs'])
+		stm = sorted({x[1] for x in rec['stmts'][n_st:] if x[0] == rp_gdb})
+		classes = [x[1] for x in rec['classes'][n_cl:] if x[0] == rp_gdb]
+		modes = [x for x in rec['modes'][n_md:] if x[0] == rp_gs]
+		journal = [x for x in rec['journal'][n_j:] if x[0] == rp_gdb]
+		flags = [list(_class_flags(k)) for k in classes]
+		env.setdefault('seen_modes', []).extend(modes)
+		env.setdefault('seen_classes', set()).update(k.__name__ for k in classes)
+		steps.append(dict(status=r['status'], sessions=len(classes), opens=len(modes)))
+		name = f'invocation {idx} ({inv["cmd"]}{", fail=" + str(inv["fail"]) if inv.get("fail") else ""})'
+		if r['status'] == 'problem':
+			bad = f'{name}: {r["detail"]}'
+		elif df:
+			bad = f'{name} changed the {"data base directory" if strict else "bytes of the data base files"}: ' + _with_damage(df, env['gs'])
+			if inv.get('mut') or inv.get('qslice'):
+				steps_txt = [f'{SEL_NAMES[int(x[0]) % NSEL]} then {MUT_NAMES[int(x[1]) % NMUT]}' for x in inv.get('mut', []) if len(x) > 1]
+				bad += f' [in-place post-processing of arrays obtained from db.signatures: {steps_txt}' + \
+				       (f'; query signatures db.signatures[a:b], .values then {MUT_NAMES[int(inv["qslice"][2]) % NMUT]}'
+				        if inv.get('qslice') and len(inv['qslice']) > 2 else '') + ']'
+		elif stm:
+			bad = f'{name}: write statement(s) {stm} reached the cursor of the genome file'
+		elif journal and strict:
+			bad = f'{name}: journal file(s) {journal[0][1]} appeared next to the genome file'
+		elif any(fl != [1, 1] for fl in flags):
+			k = next(k for k, fl in zip(classes, flags) if fl != [1, 1])
+			fl = _class_flags(k)
+			bad = (f'{name}: the session is a {k.__name__} whose flush is {"a no-op" if fl[0] else "REAL"} and whose commit '
+			       f'{"raises" if fl[1] else "is ALLOWED"} (not a read-only session)')
+		elif any(x[1] != 'r' for x in modes):
+			x = next(x for x in modes if x[1] != 'r')
+			bad = (f'{name}: signature file opened in mode {x[1]!r}; SHA-256 while open {str(x[2])[:12]} vs '
+			       f'{env["base"]["files"]["ref-signatures.gs"][0][:12]} before')
 		if bad:
+			break
+		if r['status'] == 'ok' and inv['cmd'] not in ('libsession', 'libstore'):
+			completed += 1
+		if r['status'] == 'failed':
+			failed += 1
+		if inv['cmd'] in ('libsession', 'libstore'):
+			edits += 1
+		elif r.get('eff'):
+			edits += 1      # arrays obtained from db.signatures were effectively modified in place
+		if r.get('eff'):
+			ctx.count('history:effective-in-place-modifications', r['eff'])
+		# a failing invocation was announced but the command succeeded (or vice versa): the generator's
+		# idea of what fails is not part of the property -- only counted
+		if bool(inv.get('fail')) != (r['status'] == 'failed'):
+			ctx.count('history:fail-expectation-differs')
+	ctx.count('history:invocations', len(steps))
+	if strict:
+		ctx.case(c, nontrivial=(len(c['invs']) >= 2 and completed >= 1 and (failed + edits) >= 1))
+	else:
+		ctx.count('history:dbstate-invocations', len(steps))
+		ctx.case(c, nontrivial=(completed >= 1 and holder.st != STATE_DEFAULT))
+	if bad:
+		if strict:
 			ctx.violation('history', c, bad, impl=steps, model=m)
 			_restore()
-			continue
-		if m is None or m == [2]:
-			if m == [2]:
-				ctx.broke('correspondence history', f'model rejected the request for {c}')
-			continue
-		hist_ok, per = m
-		if not hist_ok:
-			ctx.broke('correspondence history', f'the generated history is outside the theorem (history_ok = false): {c}')
-			continue
-		for idx, (inv, st, mi) in enumerate(zip(c['invs'], steps, per)):
-			nops, gch, sch, nch, jr, nst, mcl, mmd, nout, ever = mi
-			if gch or sch or nch or jr or nst or ever or any(x != mflags_ok for x in mcl) or any(x != 0 for x in mmd):
-				ctx.broke('correspondence history', f'the MODEL predicts a modification for invocation {idx} of {c}: {mi}')
-			# completed CLI / load invocations: same number of sessions and signature-file opens as the model's command
-			if st['status'] == 'ok' and not inv.get('fail') and inv['cmd'] in ('query', 'querysig', 'dist', 'create', 'info-db', 'info-file', 'tree', 'load'):
-				if st['sessions'] != len(mcl) or st['opens'] != len(mmd):
-					ctx.broke('correspondence history (sessions / handles opened by a command)',
-					          f'invocation {idx} {inv}: implementation opened {st["sessions"]} session(s), {st["opens"]} handle(s); '
-					          f'model {len(mcl)} / {len(mmd)}')
+		else:
+			ctx.violation('history', c, f'data base in state [{_state_text(c["state"])}]: {bad}', impl=steps, model=m,
+			              state=dict(holder.st), sqlite_header_of_state=holder.header)
+		return
+	if m is None or m == [2]:
+		if m == [2]:
+			ctx.broke('correspondence history', f'model rejected the request for {c}')
+		return
+	hist_ok, per = m
+	if not hist_ok:
+		ctx.broke('correspondence history', f'the generated history is outside the theorem (history_ok = false): {c}')
+		return
+	for idx, (inv, st, mi) in enumerate(zip(c['invs'], steps, per)):
+		nops, gch, sch, nch, jr, nst, mcl, mmd, nout, ever = mi
+		if gch or sch or nch or jr or nst or ever or any(x != mflags_ok for x in mcl) or any(x != 0 for x in mmd):
+			ctx.broke('correspondence history', f'the MODEL predicts a modification for invocation {idx} of {c}: {mi}')
+		# completed CLI / load invocations: same number of sessions and signature-file opens as the model's command
+		if st['status'] == 'ok' and not inv.get('fail') and inv['cmd'] in ('query', 'querysig', 'dist', 'create', 'info-db', 'info-file', 'tree', 'load'):
+			if st['sessions'] != len(mcl) or st['opens'] != len(mmd):
+				ctx.broke('correspondence history (sessions / handles opened by a command)',
+				          f'invocation {idx} {inv}: implementation opened {st["sessions"]} session(s), {st["opens"]} handle(s); '
+				          f'model {len(mcl)} / {len(mmd)}')
 
 
 KINDS = {'session': k_session, 'store': k_store, 'history': k_history}
@@ -1341,6 +1680,78 @@ def _rand_inv(rng, allow_tree):
 	elif cmd in ('info-file', 'tree') and p < 0.2:
 		inv['fail'] = dict(kind='badarg')
 	return inv
+
+
+# persistent states enumerated by the stream history-dbstate (every one of them x every use of DBSTATE_USES over the
+# tiers; see _build_state for the meaning of the keys)
+DBSTATES = [
+	dict(jm='wal'), dict(jm='wal', edit='desc'), dict(jm='wal', edit='free', av=2),
+	dict(jm='wal', sidecar='ckpt'), dict(jm='wal', sidecar='ckpt-noshm'), dict(jm='wal', sidecar='empty'),
+	dict(jm='wal', page=512), dict(jm='wal', page=65536, av=1), dict(jm='wal', ro='file'), dict(jm='wal', ro='dir'),
+	dict(jm='wal', enc='utf16be', uv=7), dict(jm='wal', sig='latest', vacuum=1),
+	dict(jm='delete', edit='desc'), dict(jm='truncate', edit='desc'), dict(jm='persist', edit='desc'),
+	dict(jm='persist', edit='free', page=1024), dict(jm='memory', edit='desc'), dict(jm='off', edit='free'),
+	dict(page=512), dict(page=1024, av=2, edit='free'), dict(page=8192, av=1), dict(page=65536), dict(av=2, edit='free'),
+	dict(vacuum=1), dict(uv=20210818, appid=0x47414d42), dict(enc='utf16le'), dict(ro='file'), dict(ro='dir'), dict(sig='latest'),
+]
+
+
+def _dbstate_uses():
+	"""one of each read-side use (command / library call / failing variant)"""
+	return [
+		dict(cmd='querysig'),
+		dict(cmd='info-db', flags=['-j']),
+		dict(cmd='load', n=2, libquery=True, mut=[[0, 0, 3, 0]], close=True),
+		dict(cmd='libsession', how='cli', af=1, ops=_mk_ops(['q', 'a', 'm1', 'q', 'f', 'c', 't', 'r'])),
+		dict(cmd='query', n=1, q=[0], fmt='json', fail=dict(kind='sql', at=4)),
+		dict(cmd='dist', n=1, q=[1]),
+		dict(cmd='libsession', how='default', af=1, ops=_mk_ops(['m2', 'd3', 'q', 'c', 'f', 'x'])),
+		dict(cmd='query', n=1, q=[2], fmt='csv'),
+		dict(cmd='libstore', ops=[[1, 2], [2, 0, 5], [6, 1, 3, 0, 10, 2], [5]]),
+		dict(cmd='querysig', fail=dict(kind='sql', at=2)),
+		dict(cmd='libsession', how='explicit', af=0, ops=_mk_ops(['a', 'f', 'q', 't', 'c'])),
+		dict(cmd='query', n=1, q=[3], fmt='archive', fail=dict(kind='badfile')),
+		dict(cmd='info-db', flags=[], fail=dict(kind='nodb')),
+		dict(cmd='load', n=1, fail=dict(kind='sql', at=3)),
+	]
+
+
+def _rand_state(rng):
+	"""a random combination of the state dimensions (mostly two or three away from the shipped state)"""
+	st = {}
+	jm = rng.choice(['wal', 'wal', 'wal', 'delete', 'truncate', 'persist', 'memory', 'off'])
+	st['jm'] = jm
+	st['edit'] = rng.choice(['none', 'desc', 'free']) if jm in ('wal', 'delete') else rng.choice(['desc', 'free'])
+	if jm == 'wal' and rng.random() < 0.5:
+		st['sidecar'] = rng.choice(['ckpt', 'ckpt-noshm', 'empty'])
+	if rng.random() < 0.5:
+		st['page'] = rng.choice(PAGE_SIZES)
+	if rng.random() < 0.35:
+		st['av'] = rng.choice([1, 2])
+	if rng.random() < 0.2:
+		st['vacuum'] = 1
+	if rng.random() < 0.3:
+		st['uv'] = rng.choice([1, 77, 2 ** 31 - 1])
+	if rng.random() < 0.3:
+		st['appid'] = rng.choice([1, 0x47414d42, 2 ** 31 - 1])
+	if rng.random() < 0.2:
+		st['enc'] = rng.choice(['utf16le', 'utf16be'])
+	if rng.random() < 0.2:
+		st['ro'] = rng.choice(['file', 'dir'])
+	if rng.random() < 0.2:
+		st['sig'] = 'latest'
+	return st
+
+
+def _rand_state_inv(rng):
+	"""like _rand_inv, without the commands that do not go near the data base directory / are expensive (tree)"""
+	while True:
+		inv = _rand_inv(rng, False)
+		if inv['cmd'] in ('create', 'info-file') and rng.random() < 0.7:
+			continue
+		if inv['cmd'] == 'libsession':
+			inv['how'] = rng.choice(PROPERTY_HOW)
+		return inv
 
 
 def generate(ctx):
@@ -1469,6 +1880,26 @@ def generate(ctx):
 		rng.shuffle(invs)
 		yield 'history', dict(invs=invs)
 		ctx.count('stream:history-inplace')
+	# ---- histories against a data base whose files are in another persistent state (journal mode WAL / leftover side
+	# files / page size / auto_vacuum / freelist / user_version / encoding / read-only on disk / HDF5 format version) ----
+	uses = _dbstate_uses()
+	per = ctx.pick(2, len(uses))
+	n = 0
+	for k, st in enumerate(DBSTATES):
+		# quick: `per` of the uses per state, rotating with the state index and the seed, the first one always a CLI command
+		# that opens the genome file; thorough: every use for every state
+		start = (k * per + ctx.seed * 5) % len(uses)
+		invs = [uses[(start + j) % len(uses)] for j in range(per)]
+		if per < len(uses):
+			invs = [dict(rng.choice([uses[0], uses[0], uses[7], dict(cmd='query', n=1, q=[rng.randrange(8)], fmt=rng.choice(['csv', 'json']))]))] + invs
+		yield 'history', dict(state=dict(st), invs=[dict(i) for i in invs])
+		n += 1
+	ctx.count('stream:history-dbstate', n)
+	ctx.extra['exhaustive_scope'] += (f'; history-dbstate: each of {len(DBSTATES)} persistent states of the data base files x '
+	                                  f'{"every one" if per == len(uses) else str(per + 1)} of {len(uses)} read-side uses')
+	for _ in range(ctx.pick(10, 150)):
+		yield 'history', dict(state=_rand_state(rng), invs=[_rand_state_inv(rng) for _ in range(rng.randint(2, ctx.pick(3, 5)))])
+		ctx.count('stream:history-dbstate-random')
 	trees = ctx.pick(2, 8)
 	for _ in range(ctx.pick(36, 200)):
 		invs = []
